@@ -222,6 +222,29 @@ def cparts(name):
     return sp.Symbol(name + "_re", real=True) + sp.I * sp.Symbol(name + "_im", real=True)
 
 
+PARTIAL_ON_REALS = ("sqrt", "ln", "log", "log2", "log10", "acos", "asin", "acosh", "atanh", "powf", "powc")
+NONNEG_SOURCES = ("abs", "modulus", "modulus_squared", "norm", "norm_sqr", "norm1", "norm_squared")
+
+
+def check_complex_domain(F, run, roots):
+    """R14.7 — `roots` is generic over N, which may be a *real* field, and the quantities it takes square roots of (discriminants) have no
+    fixed sign: every partial function must be applied in the complex type (or to a magnitude), else a negative discriminant gives NaN."""
+    dp = "Polynomial::roots"
+    n = 0
+    for c in walk(roots["body"]):
+        if c.get("k") != "MCall" or c["name"] not in PARTIAL_ON_REALS:
+            continue
+        n += 1
+        ty = c["recv"].get("ty") or ""
+        inner = peel(c["recv"])
+        nonneg = inner.get("k") == "MCall" and inner["name"] in NONNEG_SOURCES
+        run.check("Complex<" in ty or nonneg, "R14.7", dp, "complex-domain:%s#%d" % (c["name"], n), F.loc(roots, c),
+                  "`%s.%s()` is evaluated in the type %s, which is a real field when the coefficients are real: a negative argument (e.g. the discriminant "
+                  "of a quadratic with a conjugate pair) gives NaN instead of a complex number" % (pp(c["recv"])[:60], c["name"], ty),
+                  sample="%s applied in %s" % (c["name"], ty[:40]))
+    run.floor("R14.7", dp, "partial-function sites", n, 2, F.loc(roots))
+
+
 def check_laguerre_step(F, run, roots):
     dp = "Polynomial::roots"
     loops = [n for n in walk(roots["body"]) if n.get("k") == "While" and any(x.get("k") == "MCall" and x["name"] == "evaluate_derivative" for x in walk(n["body"]))]
@@ -397,6 +420,7 @@ def run(F, run, tier):
     check_general_branch(F, run, roots, tier)
     check_guards(F, run, roots)
     check_laguerre_step(F, run, roots)
+    check_complex_domain(F, run, roots)
     check_zeros(F, run, tier)
     run.assumptions += ["the Laguerre iteration is abstracted to 'a value G was found' and Newton polishing is uninterpreted: that they deliver *the* roots, one-to-one and accurately, "
                         "is numerical and not decided", "exact arithmetic, generic coefficients"]
